@@ -10,6 +10,12 @@
      heartbeat.go execute()               signing context cancelled at expiry -
                                           heartbeatInactivityClaimValidityBlocks, claim context
                                           cancelled at expiry - heartbeatTimeoutSafetyMarginBlocks
+     node.go withCancelOnBlock           the helper every block deadline above is armed with: a
+                                          machine (derived context open / cancelled; events: parent
+                                          done, block reached, waiter error) with the rule of the
+                                          code as written — `defer cancelBlockCtx()` runs whatever
+                                          waitForBlockFn returned — and the scripted block waiter /
+                                          block clock of the driver as its environment
    Every number comes from Gen.Consts_C46 (regenerated from /repo on every run); durations are
    nanoseconds.  Block numbers are Go uint64 values (wrap modulo 2^64).  The only value typed
    here is the nominal host-chain block time of the property statement (12 s). *)
@@ -95,6 +101,11 @@ Definition signing_end (a : action) (exp : Z) : option Z := signing_end_of (sign
 
 (* the first message's signing: starts at the action's start block *)
 Definition signing_start (start : Z) : Z := start.
+(* ... except that moving_funds.go execute() first waits for the commitment confirmations and
+   hands proposalProcessingStartBlock + movingFundsCommitmentConfirmationBlocks to signTransaction *)
+Definition signing_delay (a : action) : Z :=
+  match a with MovingFunds => movingFundsCommitmentConfirmationBlocks | _ => 0 end.
+Definition action_signing_start (a : action) (start : Z) : Z := u64 (start + signing_delay a).
 Definition loop_timeout (start : Z) : Z := u64 (start + loop_blocks).
 
 (* heartbeat: the inactivity claim context is cancelled here (no guard in the code) *)
@@ -114,6 +125,156 @@ Definition constants_ok (tx : bool) (v off mg lp bt : Z) : bool :=
 Definition windows_ok (start exp mg lp : Z) (sign_start sign_end : Z) (post_end : option Z) : bool :=
   (start <=? sign_start) && (sign_end <=? exp - mg) && (lp <=? sign_end - start)
   && match post_end with None => true | Some pe => (sign_end <=? pe) && (pe <=? exp) end.
+
+(* ---------------- withCancelOnBlock: is the deadline ENFORCED ---------------- *)
+(* node.go withCancelOnBlock(ctx, block, waitForBlockFn):
+     blockCtx, cancelBlockCtx := context.WithCancel(ctx)
+     go func() { defer cancelBlockCtx(); err := waitForBlockFn(ctx, block); if err != nil { log } }()
+   The derived context is a two-state machine.  Events: the parent context is done
+   (context.WithCancel propagates), the waiter returned nil (the target block arrived — or the
+   waiter's own context, the parent, was done), the waiter returned an error, anything else. *)
+Inductive ctx_state := CtxOpen | CtxCancelled.
+Inductive event := EvParentDone | EvBlockReached | EvWaiterError | EvQuiet.
+
+(* [on_error]: is the derived context cancelled when the waiter fails.  The code as written:
+   yes (the cancel is deferred, so it runs after an error as well) *)
+Definition closing (on_error : bool) (e : event) : bool :=
+  match e with
+  | EvParentDone => true
+  | EvBlockReached => true
+  | EvWaiterError => on_error
+  | EvQuiet => false
+  end.
+Definition ctx_step (on_error : bool) (s : ctx_state) (e : event) : ctx_state :=
+  match s with
+  | CtxCancelled => CtxCancelled
+  | CtxOpen => if closing on_error e then CtxCancelled else CtxOpen
+  end.
+Definition ctx_run (on_error : bool) (s : ctx_state) (h : list event) : ctx_state :=
+  fold_left (ctx_step on_error) h s.
+Definition code_on_error : bool := true.
+Definition is_closed (s : ctx_state) : bool := match s with CtxCancelled => true | CtxOpen => false end.
+
+(* the environment: a scripted block waiter and a scripted block clock (the driver's fakes).
+   WOk returns nil once the clock shows the target block; WErrAfter k returns an error once the
+   clock shows (block at arming) + k  (k = 0: at once); WHang never returns by itself.  Every
+   pending waiter returns nil when its context (the parent) is done, as waitForBlockHeight does *)
+Inductive wmode := WOk | WErrAfter (k : Z) | WHang.
+Inductive wret := NotReturned | RetNil | RetErr.
+Inductive dstep := SAdvance (b : Z) | SCancelParent.
+
+Definition fires (m : wmode) (armed target b : Z) : wret :=
+  match m with
+  | WOk => if target <=? b then RetNil else NotReturned
+  | WErrAfter k => if armed + k <=? b then RetErr else NotReturned
+  | WHang => NotReturned
+  end.
+
+Record wstate := { w_ret : wret; w_parent : bool; w_ctx : ctx_state }.
+Definition w_init : wstate := {| w_ret := NotReturned; w_parent := false; w_ctx := CtxOpen |}.
+
+(* the machine events one scripted step gives rise to, the waiter's state and the parent's *)
+Definition step_events (m : wmode) (armed target : Z) (st : wstate) (d : dstep)
+  : list event * wret * bool :=
+  match d with
+  | SCancelParent =>
+      if w_parent st then ([EvQuiet], w_ret st, true)
+      else match w_ret st with
+           | NotReturned => ([EvParentDone; EvBlockReached], RetNil, true)
+           | r => ([EvParentDone], r, true)
+           end
+  | SAdvance b =>
+      match w_ret st with
+      | NotReturned =>
+          match fires m armed target b with
+          | NotReturned => ([EvQuiet], NotReturned, w_parent st)
+          | RetNil => ([EvBlockReached], RetNil, w_parent st)
+          | RetErr => ([EvWaiterError], RetErr, w_parent st)
+          end
+      | r => ([EvQuiet], r, w_parent st)
+      end
+  end.
+
+Definition world_step (on_error : bool) (m : wmode) (armed target : Z) (st : wstate) (d : dstep) : wstate :=
+  match step_events m armed target st d with
+  | (evs, r, pd) => {| w_ret := r; w_parent := pd; w_ctx := ctx_run on_error (w_ctx st) evs |}
+  end.
+Definition world_run (on_error : bool) (m : wmode) (armed target : Z) (st : wstate) (steps : list dstep) : wstate :=
+  fold_left (world_step on_error m armed target) steps st.
+
+(* what the driver records after the arming and after every scripted step: has the waiter
+   returned (a positive signal of the fake), is the derived context closed *)
+Record cobs := { o_ret : wret; o_closed : bool }.
+Definition obs_of (st : wstate) : cobs := {| o_ret := w_ret st; o_closed := is_closed (w_ctx st) |}.
+Fixpoint world_obs (on_error : bool) (m : wmode) (armed target : Z) (st : wstate) (steps : list dstep) : list cobs :=
+  match steps with
+  | [] => []
+  | d :: ds => let st' := world_step on_error m armed target st d in
+               obs_of st' :: world_obs on_error m armed target st' ds
+  end.
+(* arming at clock [armed] is the first step: the waiter is called and looks at the clock *)
+Definition all_steps (armed : Z) (steps : list dstep) : list dstep := SAdvance armed :: steps.
+Definition model_obs (m : wmode) (armed target : Z) (steps : list dstep) : list cobs :=
+  world_obs code_on_error m armed target w_init (all_steps armed steps).
+
+(* who armed the deadline *)
+Inductive armer :=
+| APrim (target : Z) (has_parent : bool)   (* withCancelOnBlock called directly *)
+| ASignTx (start timeout : Z)               (* walletTransactionExecutor.signTransaction: signBatch's context *)
+| AHbSign (start exp : Z)                   (* heartbeatAction.execute(): the signing executor's context *)
+| AHbClaim (start exp : Z)                  (* heartbeatAction.execute(): the inactivity claim executor's context *)
+| AExec (a : action) (start exp : Z).       (* a transaction action's execute(): the signing executor's context *)
+
+Definition armer_target (ar : armer) : option Z :=
+  match ar with
+  | APrim t _ => Some t
+  | ASignTx _ timeout => Some timeout
+  | AHbSign _ exp => signing_end Heartbeat exp
+  | AHbClaim _ exp => match signing_end Heartbeat exp with None => None | Some _ => Some (claim_end exp) end
+  | AExec a _ exp => signing_end a exp
+  end.
+(* the start block handed to the executor whose context is observed *)
+Definition armer_sign_start (ar : armer) : option Z :=
+  match ar with
+  | APrim _ _ => None
+  | ASignTx start _ => Some (signing_start start)
+  | AHbSign start _ => Some (signing_start start)
+  | AHbClaim _ _ => None
+  | AExec a start _ => Some (action_signing_start a start)
+  end.
+(* the latest block the property allows for this deadline *)
+Definition armer_latest (ar : armer) : Z :=
+  match ar with
+  | APrim t _ => t
+  | ASignTx _ timeout => timeout
+  | AHbSign _ exp => exp - heartbeatTimeoutSafetyMarginBlocks
+  | AHbClaim _ exp => exp - 1
+  | AExec a _ exp => exp - safety_margin a
+  end.
+Definition armer_start (ar : armer) : option Z :=
+  match ar with
+  | APrim _ _ => None
+  | ASignTx start _ | AHbSign start _ | AHbClaim start _ | AExec _ start _ => Some start
+  end.
+Definition armer_has_parent (ar : armer) : bool :=
+  match ar with APrim _ p => p | _ => false end.   (* the actions derive from context.Background() *)
+
+Definition is_cancel (d : dstep) : bool := match d with SCancelParent => true | SAdvance _ => false end.
+Definition returned (r : wret) : bool := match r with NotReturned => false | _ => true end.
+
+(* the deadline is enforced, on the observations alone: after the arming and after every
+   scripted step the derived context is closed exactly when a closing event has been seen —
+   the waiter returned (nil: the block arrived; an error: the block counter failed) or the
+   parent was cancelled; in particular it never stays open after a waiter error, and it is not
+   closed (the phase is not cut short) while none of them has happened *)
+Fixpoint enforce_ok (parent_done : bool) (steps : list dstep) (obs : list cobs) : bool :=
+  match steps, obs with
+  | [], [] => true
+  | d :: ds, o :: os =>
+      let pd := parent_done || is_cancel d in
+      Bool.eqb (o_closed o) (pd || returned (o_ret o)) && enforce_ok pd ds os
+  | _, _ => false
+  end.
 
 (* ---------------- cases ---------------- *)
 Record static_obs := {
@@ -147,7 +308,12 @@ Inductive case :=
 | CSign (start timeout : Z) (sign_start sign_end : Z)
 (* heartbeatAction.execute() for (start, expiry); [claims] = the heartbeat fails and the failure
    threshold is reached, so the inactivity claim is issued *)
-| CHeartbeat (start exp : Z) (claims : bool) (o : hb_obs).
+| CHeartbeat (start exp : Z) (claims : bool) (o : hb_obs)
+(* a deadline armed by [ar] when the block clock shows [armed], with the scripted waiter [m],
+   followed by the scripted steps: the start block handed to the executor, the block the waiter
+   was asked for, and one observation after the arming and after every step *)
+| CEnforce (ar : armer) (armed : Z) (m : wmode) (steps : list dstep)
+           (sign_start : option Z) (target_obs : option Z) (obs : list cobs).
 
 Definition optZ_eqb (a b : option Z) : bool :=
   match a, b with Some x, Some y => x =? y | None, None => true | _, _ => false end.
@@ -201,6 +367,38 @@ Definition spec_ok (c : case) : bool :=
           | _, _ => false
           end
       end
+  | CEnforce ar armed m steps ss t obs =>
+      match t with
+      | None =>
+          (* no deadline armed: fine only if nothing was signed either (execute() refused before
+             the signing step) *)
+          match ar, ss, obs with
+          | APrim _ _, _, _ => false
+          | _, None, [] => true
+          | _, _, _ => false
+          end
+      | Some t =>
+          (t <=? armer_latest ar)
+          && match armer_start ar, ss with Some s0, Some s => s0 <=? s | _, _ => true end
+          && match ar, ss with
+             | AExec a start exp, Some s =>
+                 (* expiry as node.go sets it: one complete retry loop fits after the real start *)
+                 if exp =? start + validity a then s + loop_blocks <=? t else true
+             | _, _ => true
+             end
+          && enforce_ok false (all_steps armed steps) obs
+      end
+  end.
+
+Definition wret_eqb (a b : wret) : bool :=
+  match a, b with NotReturned, NotReturned | RetNil, RetNil | RetErr, RetErr => true | _, _ => false end.
+Definition cobs_eqb (a b : cobs) : bool :=
+  wret_eqb (o_ret a) (o_ret b) && Bool.eqb (o_closed a) (o_closed b).
+Fixpoint obs_eqb (a b : list cobs) : bool :=
+  match a, b with
+  | [], [] => true
+  | x :: a', y :: b' => cobs_eqb x y && obs_eqb a' b'
+  | _, _ => false
   end.
 
 Definition agree (c : case) : bool :=
@@ -216,6 +414,26 @@ Definition agree (c : case) : bool :=
       let m := heartbeat_model start exp claims in
       optZ_eqb (h_sign_start o) (h_sign_start m) && optZ_eqb (h_sign_end o) (h_sign_end m)
       && optZ_eqb (h_claim_end o) (h_claim_end m) && hb_eqb (h_result o) (h_result m)
+  | CEnforce ar armed m steps ss t obs =>
+      optZ_eqb t (armer_target ar) && optZ_eqb ss (armer_sign_start ar)
+      && match armer_target ar with
+         | Some tm => obs_eqb obs (model_obs m armed tm steps)
+         | None => false
+         end
+  end.
+
+Definition step_wf (d : dstep) : bool := match d with SAdvance b => is_u64 b | SCancelParent => true end.
+Definition mode_wf (armed : Z) (m : wmode) : bool :=
+  match m with WErrAfter k => (0 <=? k) && (armed + k <? two64) | _ => true end.
+Definition armer_wf (ar : armer) : bool :=
+  match ar with
+  | APrim t _ => is_u64 t
+  | ASignTx start timeout => is_u64 start && is_u64 timeout
+  | AHbSign start exp | AHbClaim start exp =>
+      is_u64 start && is_u64 exp && (heartbeatInactivityClaimValidityBlocks <=? exp)
+  | AExec a start exp =>
+      is_tx a && is_u64 start && is_u64 exp && (signing_end_offset a <=? exp)
+      && (start + signing_delay a <? two64)
   end.
 
 Definition well_formed (c : case) : bool :=
@@ -224,6 +442,9 @@ Definition well_formed (c : case) : bool :=
   | CStart cb obs => is_u64 cb && (cb <? 4611686018427387904)
   | CSign start timeout _ _ => is_u64 start && is_u64 timeout
   | CHeartbeat start exp _ _ => is_u64 start && is_u64 exp
+  | CEnforce ar armed m steps _ _ _ =>
+      armer_wf ar && is_u64 armed && mode_wf armed m && forallb step_wf steps
+      && (armer_has_parent ar || negb (existsb is_cancel steps))
   end.
 
 Definition judge (c : case) : verdict :=
@@ -239,4 +460,14 @@ Definition explain (c : case) : list (option Z) :=
   | CSign start timeout _ _ => [Some (signing_start start); Some timeout]
   | CHeartbeat start exp claims _ =>
       let m := heartbeat_model start exp claims in [h_sign_start m; h_sign_end m; h_claim_end m]
+  | CEnforce ar armed m steps _ _ _ =>
+      (* the deadline block, then per observation: 0 not returned / 1 nil / 2 error, closed 0 / 1 *)
+      armer_target ar ::
+      match armer_target ar with
+      | None => []
+      | Some tm =>
+          flat_map (fun o => [Some (match o_ret o with NotReturned => 0 | RetNil => 1 | RetErr => 2 end);
+                              Some (if o_closed o then 1 else 0)])
+                   (model_obs m armed tm steps)
+      end
   end.
